@@ -33,6 +33,7 @@ pub fn replay(v: &Value) -> Result<Option<String>, String> {
                 lazy: v["lazy"].as_bool().unwrap_or(false),
                 pair_mode,
                 clone_mode: v["clone_mode"].as_bool().unwrap_or(false),
+                explicit_inputs: None,
             };
             let progress = |_: usize| {};
             let cx = ShardCtx { shard: 0, nshards: 1, known: Sw::NONE, skip: vec![], progress: &progress };
